@@ -92,6 +92,11 @@ CHECKS['C18'] = dict(
     text='Generated call chains (functions, methods, statics, initialisers, named/anonymous lambdas, native callbacks; depth 1-10) end in an explicit raise or a runtime error and are caught at the top, in a middle frame or not at all; the model tracks the call chain with the line numbers the printer assigned; every traceback frame (file, line, function name, native frames) and every backTrace line, the message, the inner error, the failing exit status, exit(n) for n up to 65535 and output completeness are compared on debug and release.',
     note=_MODEL_NOTE + ' One statement per physical line (the line of a call is then unambiguous); files stay far below 65535 lines (u16 line table, D26).', ref='DESIGN.md §2 C18')
 
+CHECKS['C19'] = dict(
+    technique='session-vs-file self-differential + reference model over generated prompt sessions fed line by line to the real REPL',
+    text='Generated sessions (definitions, calls into any earlier line, functions with property/invoke sites over earlier objects, classes extended later, closures over session variables, entries that fail to compile or raise, each followed by a probe of earlier definitions) are fed to Vm::repl through stdin; the output with prompts stripped must equal the reference model and the output of the good lines run as one file; debug, release and debug under a collection schedule with address reuse.',
+    note=_MODEL_NOTE + ' Every entry is one physical line (the prompt reads lines).', ref='DESIGN.md §2 C19')
+
 PENDING = {}
 
 
